@@ -113,7 +113,6 @@ def interpret(text, linesplit='lf', ws='strict', ints='strict', pline='strict', 
             n = _to_int(f[2], ints, natural=True)
             mm = _to_int(f[3], ints, natural=True)
             if n is None or mm is None:
-                n = None
                 return _reject('syntax', 'counts in problem line {!r}'.format(body))
             m = mm
             continue
@@ -198,6 +197,17 @@ def judge(text, returned, raised_value_error):
     return 'gray', None
 
 
+def first_offending_line(text):
+    """First line that is neither blank, comment, problem line nor made of integers."""
+    for ln in text.split('\n'):
+        body = ln.strip(_BLANKS)
+        if body == '' or body[0] in 'cp':
+            continue
+        if any(not _STRICT_LIT.match(t) for t in _fields(body.rstrip('\r'), 'strict')):
+            return ln
+    return None
+
+
 # ---------------------------------------------------------------------------
 # seed corpus: the DIMACS snippets of the repository's own parser tests
 
@@ -250,33 +260,62 @@ MUTATORS = ['truncate', 'del-line', 'dup-line', 'count-n', 'count-m', 'out-of-ra
             'del-char', 'join-lines']
 
 
+_CACHE = {}
+
+
+def _cached(fn):
+    def wrapper():
+        if fn.__name__ not in _CACHE:
+            _CACHE[fn.__name__] = fn()
+        return _CACHE[fn.__name__]
+    wrapper.__name__ = fn.__name__
+    wrapper.__doc__ = fn.__doc__
+    return wrapper
+
+
+@_cached
 def st_unusual_text():
     """Header values, header keys and variable labels."""
     from hypothesis import strategies as st
     fixed = ['', '\n', '\r', 'a\nb', 'a\r\nb', 'a\rb', 'p cnf 1 1', 'c', 'c x', 'cnf', '\np cnf 1 1\n1 0', 'x\n1 2 0',
              'é', '日本', '0', ' ', '1 0', '%', '{}', '{0}', '}{', 'a\n', '\n\n', 'p', 'p cnf',
-             ' ', '\x0c', '\x85', 'tab\there', 'café\nnaïve', '-1 0', 'x1']
+             '\u2028', '\x0c', '\x85', 'tab\there', 'café\nnaïve', '-1 0', 'x1']
     return st.one_of(st.sampled_from(fixed),
                      st.text(max_size=12),
                      st.text(alphabet='c p\n\r01-x', max_size=10))
 
 
+@_cached
 def st_document():
-    """(text, provenance-list): a DIMACS-like document, valid before the mutators act."""
+    """(text, provenance-list): a DIMACS-like document, valid before the mutators act.
+
+    Every strategy object is built once; the composite only draws."""
     from hypothesis import strategies as st
+    S = st.sampled_from
+    I = st.integers
+    s_n, s_ncl, s_w, s_sign = I(0, 6), I(0, 6), I(0, 4), S([1, -1])
+    s_var = {n: I(1, n) for n in range(1, 7)}
+    s_muts = st.lists(S(MUTATORS), max_size=2)
+    s_dn, s_dm, s_oor = S([-2, -1, 1, 3]), S([-1, 1, 2]), I(1, 3)
+    s_stray, s_bare = S(STRAY), S(['-', '+', '- 1', '-+1'])
+    s_pword, s_pextra = S(['dnf', 'CNF', 'sat', 'cnf+', '']), S([' 0', ' 1 0', ' x', ' c comment'])
+    s_pre_n = I(0, 2)
+    s_pre = S(['c', 'c hello', 'c p cnf 9 9', ' c indented', 'c 1 2 0', 'cnf', ''])
+    s_sp, s_lead, s_trail = S([' ', ' ', '\t', '  ']), S(['', '', ' ', '\t']), S(['', '', ' ', '\r'])
+    s_sep, s_nl, s_five = S(SEPS), I(0, 3), I(0, 4)
+    s_odd, s_bool, s_glue = S(ODD_WS), st.booleans(), S(['', ' '])
+    s_pos = I(0, 10 ** 6)          # positions are reduced modulo the actual length
 
     @st.composite
     def doc(draw):
-        n = draw(st.integers(0, 6))
-        ncl = draw(st.integers(0, 6))
+        n = draw(s_n)
         clauses = []
-        for _ in range(ncl):
+        for _ in range(draw(s_ncl)):
             if n == 0:
                 clauses.append([])
             else:
-                w = draw(st.integers(0, 4))
-                clauses.append([draw(st.integers(1, n)) * draw(st.sampled_from([1, -1])) for _ in range(w)])
-        muts = draw(st.lists(st.sampled_from(MUTATORS), max_size=2))
+                clauses.append([draw(s_var[n]) * draw(s_sign) for _ in range(draw(s_w))])
+        muts = draw(s_muts)
         decl_n, decl_m = n, len(clauses)
         toks = []
         for c in clauses:
@@ -289,91 +328,96 @@ def st_document():
         # ---- structural mutators
         for mu in muts:
             if mu == 'count-n':
-                decl_n = max(0, decl_n + draw(st.sampled_from([-2, -1, 1, 3])))
+                decl_n = max(0, decl_n + draw(s_dn))
             elif mu == 'count-m':
-                decl_m = max(0, decl_m + draw(st.sampled_from([-1, 1, 2])))
+                decl_m = max(0, decl_m + draw(s_dm))
             elif mu == 'out-of-range':
                 lits = [i for i, t in enumerate(toks) if t != '0']
-                v = (decl_n + draw(st.integers(1, 3))) * draw(st.sampled_from([1, -1]))
+                v = (decl_n + draw(s_oor)) * draw(s_sign)
                 if lits:
-                    toks[draw(st.sampled_from(lits))] = str(v)
+                    toks[lits[draw(s_pos) % len(lits)]] = str(v)
                 else:
                     toks.insert(0, str(v))
             elif mu == 'drop-final-0':
                 if toks:
                     toks.pop()
             elif mu == 'second-p':
-                second_p = draw(st.integers(0, len(toks)))
+                second_p = draw(s_pos) % (len(toks) + 1)
             elif mu == 'stray':
-                toks.insert(draw(st.integers(0, len(toks))), draw(st.sampled_from(STRAY)))
+                toks.insert(draw(s_pos) % (len(toks) + 1), draw(s_stray))
             elif mu == 'bare-sign':
                 if toks:
-                    toks[draw(st.integers(0, len(toks) - 1))] = draw(st.sampled_from(['-', '+', '- 1', '-+1']))
+                    toks[draw(s_pos) % len(toks)] = draw(s_bare)
                 else:
                     toks.append('-')
             elif mu == 'format-word':
-                pword = draw(st.sampled_from(['dnf', 'CNF', 'sat', 'cnf+', '']))
+                pword = draw(s_pword)
             elif mu == 'p-late':
                 p_late = True
             elif mu == 'p-extra':
-                pextra = draw(st.sampled_from([' 0', ' 1 0', ' x', ' c comment']))
+                pextra = draw(s_pextra)
         # ---- rendering
         out = []
-        for _ in range(draw(st.integers(0, 2))):
-            out.append(draw(st.sampled_from(['c', 'c hello', 'c p cnf 9 9', ' c indented', 'c 1 2 0', 'cnf', ''])) + '\n')
-        sp = draw(st.sampled_from([' ', ' ', '\t', '  ']))
-        pl = draw(st.sampled_from(['', '', ' ', '\t'])) + sp.join(
-            [x for x in ['p', pword, str(decl_n), str(decl_m)] if x != '']) + pextra + draw(st.sampled_from(['', '', ' ', '\r']))
+        for _ in range(draw(s_pre_n)):
+            out.append(draw(s_pre) + '\n')
+        sp = draw(s_sp)
+        pl = draw(s_lead) + sp.join(
+            [x for x in ['p', pword, str(decl_n), str(decl_m)] if x != '']) + pextra + draw(s_trail)
         body = []
+        plain = draw(s_five) == 0          # one clause per line, single blanks (the writer's layout)
         for i, t in enumerate(toks):
             if second_p is not None and second_p == i:
                 body.append('\np cnf {} {}\n'.format(decl_n, decl_m))
             body.append(t)
-            if t == '0' and draw(st.integers(0, 3)) > 0:
+            if plain:
+                body.append('\n' if t == '0' else ' ')
+            elif t == '0' and draw(s_nl) > 0:
                 body.append('\n')
             else:
-                body.append(draw(st.sampled_from(SEPS)))
+                body.append(draw(s_sep))
         if second_p is not None and second_p >= len(toks):
             body.append('\np cnf {} {}\n'.format(decl_n, decl_m))
         body = ''.join(body)
         if p_late:
-            cut = draw(st.integers(0, len(body)))
+            cut = draw(s_pos) % (len(body) + 1)
             text = ''.join(out) + body[:cut] + '\n' + pl + '\n' + body[cut:]
         else:
             text = ''.join(out) + pl + '\n' + body
-        if draw(st.integers(0, 4)) == 0:
+        if draw(s_five) == 0:
             text = text.rstrip('\n')
         # ---- textual mutators
         for mu in muts:
             if mu == 'truncate' and text:
-                text = text[:draw(st.integers(0, len(text) - 1))]
+                text = text[:draw(s_pos) % len(text)]
             elif mu in ('del-line', 'dup-line', 'join-lines'):
                 lines = text.split('\n')
-                i = draw(st.integers(0, len(lines) - 1))
+                i = draw(s_pos) % len(lines)
                 if mu == 'del-line':
                     del lines[i]
                 elif mu == 'dup-line':
                     lines.insert(i, lines[i])
                 elif i + 1 < len(lines):
-                    lines[i:i + 2] = [lines[i] + draw(st.sampled_from(['', ' '])) + lines[i + 1]]
+                    lines[i:i + 2] = [lines[i] + draw(s_glue) + lines[i + 1]]
                 text = '\n'.join(lines)
             elif mu == 'odd-ws' and text:
-                i = draw(st.integers(0, len(text) - 1))
-                w = draw(st.sampled_from(ODD_WS))
+                i = draw(s_pos) % len(text)
+                w = draw(s_odd)
                 text = text[:i] + w + (text[i + 1:] if text[i] in ' \t\n' else text[i:])
             elif mu == 'lf-to-cr':
-                text = text.replace('\n', '\r') if draw(st.booleans()) else text.replace('\n', '\r\n')
+                text = text.replace('\n', '\r') if draw(s_bool) else text.replace('\n', '\r\n')
             elif mu == 'del-char' and text:
-                i = draw(st.integers(0, len(text) - 1))
+                i = draw(s_pos) % len(text)
                 text = text[:i] + text[i + 1:]
         return text, ['grammar'] + muts
     return doc()
 
 
+@_cached
 def st_reader_text():
     from hypothesis import strategies as st
+    d = st_document()
     return st.one_of(
-        st_document(), st_document(), st_document(), st_document(),
+        d, d, d, d,
         st.text(max_size=40).map(lambda t: (t, ['raw'])),
         st.text(alphabet='pcnf 0123-+\n\n\t\r_', max_size=40).map(lambda t: (t, ['alphabet'])),
         st.tuples(st.sampled_from(['p cnf 2 1\n', 'p cnf 3 2\n', 'c x\np cnf 1 1\n']),
